@@ -1039,6 +1039,11 @@ where
                     continue;
                 }
 
+                // CopyData/CopyDone/CopyFail outside of a COPY are dropped, as PostgreSQL does.
+                'd' | 'c' | 'f' => {
+                    continue;
+                }
+
                 // Close (F)
                 'C' => {
                     let close: Close = (&message).try_into()?;
@@ -1260,6 +1265,12 @@ where
                             code
                         )));
                     }
+
+                    // PostgreSQL ignores Sync and Flush while a COPY FROM STDIN is in progress and
+                    // silently drops CopyData/CopyDone/CopyFail outside of one. Forwarding them
+                    // would leave us waiting, server checked out, for a reply that never comes.
+                    'S' | 'H' if server.in_copy_mode() => {}
+                    'd' | 'c' | 'f' if !server.in_copy_mode() => {}
 
                     // Query
                     'Q' => {
